@@ -70,6 +70,10 @@ def gen_case0(rng, malformed=False):
             c["tke"] = tke
         else:
             c["ustar"] = float(np.sqrt(0.0856 * 0.845 * sp / np.log(zm / z0)))
+        if rng.random() < 0.3:
+            # a roughness length handed over as well (a configuration that carries both): this closure derives its own from ustar and tke, so
+            # that the log law closes at the measurement height whatever else is supplied
+            c["z0"] = float(zm * 10 ** rng.uniform(-3.0, -0.5))
     elif rng.random() < 0.5:
         c["z0"] = z0
     else:
